@@ -14,6 +14,10 @@
    - calls made one after the other on one thread return what each returns alone;
    - the serialisation mode is a property of one logical call: no other call - of another reader,
      on another thread, or run by the same pool worker while this call waits - is affected by it;
+   - what a call that returned Ok leaves on disk is what it leaves there alone: after a call that wrote
+     member i as @include has returned Ok, the stand-off file of member i holds the member's content
+     (alone the call writes pending content before it returns); an export of a resource's text to
+     another place (to_txt_file) leaves the resource's own stand-off state alone;
    - iterating, searching, querying and the parallel adaptors serialise nothing
      (their own result is compared with the solo result directly by the harness). *)
 From Coq Require Import List Arith Bool.
@@ -21,7 +25,7 @@ Import ListNotations.
 From Stam Require Import Model.Conc.
 
 Definition in_store (i : nat) (k : fkind) : tok :=
-  match k with NoFile => t_inline i | Txt | Json | JsonBroken => t_include i end.
+  match k with NoFile => t_inline i | Txt | Json | JsonBroken | TxtBroken => t_include i end.
 
 Fixpoint store_form (i : nat) (mem : list fkind) : list tok :=
   match mem with
@@ -38,6 +42,8 @@ Definition spec_out (mem : list fkind) (o : op) : list tok :=
   | OpMemberForeign i => [t_inline i]
   | OpMemberThenStore i => t_inline i :: t_sep :: store_form 0 mem ++ [t_sep]
   | OpStoreTwice => store_form 0 mem ++ t_sep :: store_form 0 mem ++ [t_sep]
+  | OpExport _ => []
+  | OpSaveTxt _ => []
   end.
 
 (* Stores with a stand-off file that cannot be written.  A call that has to rewrite such a file
@@ -46,11 +52,11 @@ Definition spec_out (mem : list fkind) (o : op) : list tok :=
 Fixpoint store_fails (i : nat) (mem : list fkind) (chg : list bool) : bool :=
   match mem with
   | [] => false
-  | k :: r => (match k with JsonBroken => flag i chg | _ => false end) || store_fails (S i) r chg
+  | k :: r => (match k with JsonBroken | TxtBroken => flag i chg | _ => false end) || store_fails (S i) r chg
   end.
 
 Definition member_fails (mem : list fkind) (chg : list bool) (i : nat) : bool :=
-  match kind_of mem i with JsonBroken => flag i chg | _ => false end.
+  match kind_of mem i with JsonBroken | TxtBroken => flag i chg | _ => false end.
 
 Definition call_store (mem : list fkind) (chg : list bool) : list tok :=
   if store_fails 0 mem chg then [t_err] else store_form 0 mem.
@@ -61,11 +67,12 @@ Definition spec_result (mem : list fkind) (chg : list bool) (o : op) : list tok 
   | OpMemberPlain i => if member_fails mem chg i then [t_err] else spec_out mem o
   | OpMemberThenStore i => t_inline i :: t_sep :: call_store mem chg ++ [t_sep]
   | OpStoreTwice => call_store mem chg ++ t_sep :: call_store mem chg ++ [t_sep]
+  | OpSaveTxt i => match kind_of mem i with TxtBroken => [t_err] | _ => [] end
   | _ => spec_out mem o
   end.
 
 Definition writable (mem : list fkind) : bool :=
-  forallb (fun k => match k with JsonBroken => false | _ => true end) mem.
+  forallb (fun k => match k with JsonBroken | TxtBroken => false | _ => true end) mem.
 
 (* the property for one run: every thread that has finished holds its solo result *)
 Definition solo_results (mem : list fkind) (os : list op) (ts : list thread) : Prop :=
